@@ -156,6 +156,46 @@ class SymInterp(proto.Interp):
                 return False
         return True
 
+    arrays = ()     # terms that denote arrays: comparisons on them are elementwise terms, not path forks
+
+    def is_array(self, v):
+        return any(x in self.arrays for x in proto.subterms(v))
+
+    def _compare(self, e, st):
+        # elementwise comparison on an array operand: build a term
+        if len(e.ops) == 1 and self.arrays:
+            out = []
+            hit = False
+            for l, s in self.ev(e.left, st):
+                for r, s2 in self.ev(e.comparators[0], s):
+                    if self.is_array(l) or self.is_array(r):
+                        hit = True
+                        opn = type(e.ops[0]).__name__
+                        flip = {'Gt': 'Lt', 'GtE': 'LtE'}
+                        if opn in flip:
+                            opn, l, r = flip[opn], r, l
+                        out.append((T('cmp', opn, l, r), s2))
+            if hit:
+                return [('arr', v, s) for v, s in out]
+        return super()._compare(e, st)
+
+    def truth(self, e, st):
+        if isinstance(e, ast.Compare):
+            res = self._compare(e, st)
+            if res and res[0][0] == 'arr':
+                out = []
+                for _, v, s in res:
+                    out.extend(self.truth_of(v, s))
+                return out
+            return res
+        return super().truth(e, st)
+
+    def ev_Compare(self, e, st):
+        res = self._compare(e, st)
+        if res and res[0][0] == 'arr':
+            return [(v, s) for _, v, s in res]
+        return [(C(b), s) for b, s in res]
+
     def cmp(self, op, l, r, st):
         name = type(op).__name__
         if name in ('Eq', 'NotEq', 'Lt', 'LtE', 'Gt', 'GtE') and not (is_c(l) and is_c(r)):
